@@ -330,6 +330,7 @@ type workerResult struct {
 	exitDesc string
 	crashed  bool
 	timedOut bool
+	stalled  bool
 	done     bool
 	// recycleAt is set when the worker ended voluntarily because its heap had grown
 	// (run-time built types are never freed): the shard continues in a fresh process.
@@ -370,9 +371,7 @@ func (rs *runState) runOne(mode string, tag string, args []string, wall time.Dur
 	doneCh := make(chan error, 1)
 	go func() { doneCh <- cmd.Wait() }()
 	var err error
-	select {
-	case err = <-doneCh:
-	case <-time.After(wall):
+	stop := func() {
 		cmd.Process.Signal(syscall.SIGQUIT)
 		select {
 		case err = <-doneCh:
@@ -380,7 +379,37 @@ func (rs *runState) runOne(mode string, tag string, args []string, wall time.Dur
 			cmd.Process.Kill()
 			err = <-doneCh
 		}
-		res.timedOut = true
+	}
+	deadline := time.After(wall)
+	tick := time.NewTicker(5 * time.Second)
+	defer tick.Stop()
+	lastCPU, idle := int64(-1), 0
+wait:
+	for {
+		select {
+		case err = <-doneCh:
+			break wait
+		case <-deadline:
+			stop()
+			res.timedOut = true
+			break wait
+		case <-tick.C:
+			// a worker that has used next to no CPU time for a minute is not slow but stuck (a
+			// runtime deadlocked after memory corruption looks like this): no wall-clock limit
+			// of a reasonable size would ever end it
+			cpu := procCPUTicks(cmd.Process.Pid)
+			if cpu >= 0 && lastCPU >= 0 && cpu-lastCPU < 10 { // < 2% of one core; the idle runtime's own threads use about 0.1%
+				idle++
+			} else {
+				idle = 0
+			}
+			lastCPU = cpu
+			if idle >= 12 {
+				stop()
+				res.stalled = true
+				break wait
+			}
+		}
 	}
 	of.Close()
 	ef.Close()
@@ -536,11 +565,33 @@ func (rs *runState) mergeDistinct(path string) {
 	os.Remove(path)
 }
 
+// procCPUTicks: user+system time of a process in clock ticks, -1 when it cannot be read.
+func procCPUTicks(pid int) int64 {
+	b, err := os.ReadFile(fmt.Sprintf("/proc/%d/stat", pid))
+	if err != nil {
+		return -1
+	}
+	i := bytes.LastIndexByte(b, ')')
+	if i < 0 {
+		return -1
+	}
+	fs := strings.Fields(string(b[i+1:]))
+	if len(fs) < 13 {
+		return -1
+	}
+	u, e1 := strconv.ParseInt(fs[11], 10, 64)
+	st, e2 := strconv.ParseInt(fs[12], 10, 64)
+	if e1 != nil || e2 != nil {
+		return -1
+	}
+	return u + st
+}
+
 // runShard runs a shard to the end of its case list, restarting after crashes.
 func (rs *runState) runShard(mode string, shard, nshards int, wall time.Duration) {
 	resume := ""
 	ms := rs.perMode[mode]
-	crashes := 0
+	crashes, stalls := 0, 0
 	for attempt := 0; ; attempt++ {
 		tag := fmt.Sprintf("%s.s%d.a%d", mode, shard, attempt)
 		dist := filepath.Join(rs.runDir, tag+".dist")
@@ -559,6 +610,20 @@ func (rs *runState) runShard(mode string, shard, nshards int, wall time.Duration
 			rs.inconclusive = append(rs.inconclusive, fmt.Sprintf("%s shard %d: wall-clock watchdog fired at case %s#%d (inconclusive, not a violation)", mode, shard, jsub, jidx))
 			rs.mu.Unlock()
 			return
+		}
+		if res.stalled {
+			// inconclusive for the case it was in; the rest of the shard still runs
+			crashes++
+			rs.mu.Lock()
+			ms.Crashes++
+			rs.inconclusive = append(rs.inconclusive, fmt.Sprintf("%s shard %d: worker used no CPU time for 60 s at case %s#%d (%s) and was stopped (inconclusive, not a violation)", mode, shard, jsub, jidx, jclass))
+			rs.mu.Unlock()
+			stalls++
+			if jsub == "" || crashes > 60 || stalls >= 3 {
+				return
+			}
+			resume = fmt.Sprintf("%s:%d", jsub, jidx+1)
+			continue
 		}
 		if !res.crashed {
 			if res.recycleAt != "" {
